@@ -1366,3 +1366,67 @@ def expand_closure_calls(doc):
             n += 1
     doc.setdefault('meta', {})['expanded_closure_calls'] = n
     return doc
+
+
+
+# N3h `<[T; N]>::try_from(slice)` is `if slice.len() == N { Ok(copy of it) } else { Err(TryFromSliceError) }`
+def expand_array_try_from(doc):
+    n = 0
+    for b in doc['bodies']:
+        blocks = b['blocks']
+        L = b['locals']
+        for blk in list(blocks):
+            t = blk['term']
+            if t.get('k') != 'call' or blk.get('cleanup') or t.get('target') is None or len(t.get('args', [])) != 1 or t['dest']['p']:
+                continue
+            fn = (t.get('func') or {}).get('fn') or {}
+            if fn.get('path') != 'core::convert::TryFrom::try_from':
+                continue
+            ga = fn.get('generic_args') or []
+            m = re.match(r'^\[(\w+); (\d+)\]$', ga[0]) if len(ga) == 2 else None
+            if not m or ga[1] not in ('&[%s]' % m.group(1), '&mut [%s]' % m.group(1)):
+                continue
+            elem, N = m.group(1), int(m.group(2))
+            x = t['args'][0]
+            if x.get('k') not in ('move', 'copy') or x['place']['p']:
+                continue
+            line = t.get('line')
+            da = _ty_args(t['dest_ty'])
+            arr_ty = ga[0]
+
+            def new_local(ty):
+                L.append({'ty': ty, 'ty_raw': ty, 'name': None, 'mut': True, 'synthetic': True})
+                return len(L) - 1
+
+            def mv(l):
+                return {'k': 'move', 'place': {'l': l, 'p': []}}
+
+            def asg(place, rv):
+                return {'k': 'assign', 'place': place, 'rv': rv, 'line': line, 'exp': False, 'syn': 'try_from'}
+            ln_l, c_l, a_l, r_l, u_l, e_l = new_local('usize'), new_local('bool'), new_local(arr_ty), new_local('&mut [%s]' % elem), new_local('()'), new_local('core::array::TryFromSliceError')
+            base = len(blocks)
+            xc = {'k': 'copy', 'place': x['place']}
+            blk['stmts'].append(asg({'l': ln_l, 'p': []}, {'k': 'unop', 'op': 'PtrMetadata', 'x': xc}))
+            blk['stmts'].append(asg({'l': c_l, 'p': []}, {'k': 'binop', 'op': 'Eq', 'l': mv(ln_l), 'r': {'k': 'const', 'ty': 'usize', 'text': '%d_usize' % N, 'int': N}, 'lty': 'usize'}))
+            blk['term'] = {'k': 'switch', 'discr': mv(c_l), 'discr_ty': 'bool', 'targets': [[0, base + 2]], 'otherwise': base, 'line': line, 'exp': False, 'syn': 'try_from'}
+            cfn = {'path': 'core::slice::<impl [T]>::copy_from_slice', 'path_args': 'core::slice::<impl [%s]>::copy_from_slice' % elem, 'key': '[T]::copy_from_slice', 'crate': 'core',
+                   'local': False, 'name': 'copy_from_slice', 'generic_args': [elem], 'def_kind': 'AssocFn', 'impl_self_ty': '[T]',
+                   'resolved': {'path': 'core::slice::<impl [T]>::copy_from_slice', 'key': '[T]::copy_from_slice', 'local': False, 'crate': 'core', 'kind': 'item', 'desc': 'item'}}
+            blocks.append({'cleanup': False, 'syn': 'try_from', 'stmts': [
+                asg({'l': a_l, 'p': []}, {'k': 'repeat', 'op': {'k': 'const', 'ty': elem, 'text': '0_%s' % elem, 'int': 0}, 'n': N}),
+                asg({'l': r_l, 'p': []}, {'k': 'cast', 'cast': 'PointerCoercion(Unsize, Implicit)', 'op': {'k': 'move', 'place': {'l': new_local('&mut ' + arr_ty), 'p': []}}, 'ty': '&mut [%s]' % elem, 'from_ty': '&mut ' + arr_ty})],
+                'term': {'k': 'call', 'func': {'k': 'const', 'ty': 'fn', 'text': cfn['path_args'], 'fn': cfn}, 'args': [mv(r_l), xc], 'arg_tys': ['&mut [%s]' % elem, '&[%s]' % elem],
+                         'dest': {'l': u_l, 'p': []}, 'dest_ty': '()', 'target': base + 1, 'unwind': t.get('unwind', 'continue'), 'source': 'Normal', 'line': line, 'fn_line': line,
+                         'exp': False, 'syn': 'try_from'}})
+            # the reference to the array (inserted before the cast)
+            refl = len(L) - 1
+            blocks[base]['stmts'].insert(1, asg({'l': refl, 'p': []}, {'k': 'ref', 'mut': True, 'fake': False, 'place': {'l': a_l, 'p': []}}))
+            blocks.append({'cleanup': False, 'syn': 'try_from', 'stmts': [asg(t['dest'], _agg('core::result::Result', 'Ok', 0, ['0'], [mv(a_l)], da))],
+                           'term': {'k': 'goto', 'target': t['target'], 'line': line}})
+            blocks.append({'cleanup': False, 'syn': 'try_from', 'stmts': [
+                asg({'l': e_l, 'p': []}, _agg('core::array::TryFromSliceError', 'TryFromSliceError', 0, ['0'], [{'k': 'const', 'ty': '()', 'text': '()', 'zst': True}])),
+                asg(t['dest'], _agg('core::result::Result', 'Err', 1, ['0'], [mv(e_l)], da))],
+                'term': {'k': 'goto', 'target': t['target'], 'line': line}})
+            n += 1
+    doc.setdefault('meta', {})['expanded_array_try_from'] = n
+    return doc
